@@ -19,13 +19,18 @@ def _work(job):
             return {"name": tdict["name"], "status": "template_error", "why": "%s: %s" % (type(e).__name__, e), "stats": stats.as_dict()}
         try:
             oracle = _CTX["oracles"][oracle_name]
-            r = tv.check_template(_CTX["sylt"], tpl, tv.Bounds(tier), stats, oracle=oracle)
+            if oracle_name == "soundness":
+                r = tv.check_soundness(_CTX["sylt"], tpl, tv.Bounds(tier), stats)
+            else:
+                r = tv.check_template(_CTX["sylt"], tpl, tv.Bounds(tier), stats, oracle=oracle)
             r["name"] = tdict["name"]; r["role"] = tdict.get("role", tdict["name"])
             # replay each counterexample against a fresh compilation of the concretised program
             confirmed = []
             for d in r.get("diffs", []):
                 try:
-                    differs, info = tv.replay_concrete(_CTX["sylt"], tpl, d["holes"]) if oracle == "equiv" else _CTX["replays"][oracle_name](_CTX["sylt"], tpl, d["holes"])
+                    if oracle_name == "soundness": differs, info = tv.replay_soundness(_CTX["sylt"], tpl, d["holes"])
+                    elif oracle == "equiv": differs, info = tv.replay_concrete(_CTX["sylt"], tpl, d["holes"])
+                    else: differs, info = _CTX["replays"][oracle_name](_CTX["sylt"], tpl, d["holes"])
                 except Exception as e:
                     differs, info = None, {"why": "replay raised %s: %s" % (type(e).__name__, e)}
                 d["replayed"] = differs; d["replay"] = info
@@ -39,7 +44,7 @@ def _work(job):
 
 def run_templates(sylt, templates, tier, oracle_name="equiv", oracles=None, replays=None, procs=None):
     _CTX["sylt"] = sylt
-    _CTX["oracles"] = dict({"equiv": "equiv"}, **(oracles or {}))
+    _CTX["oracles"] = dict({"equiv": "equiv", "soundness": "soundness"}, **(oracles or {}))
     _CTX["replays"] = replays or {}
     jobs = [(i, t, tier, oracle_name) for i, t in enumerate(templates)]
     procs = procs or min(16, max(1, len(jobs)))
@@ -58,3 +63,70 @@ def summarize(results):
         for k in ("queries", "sat", "unsat", "unknown"): agg[k] += st.get(k, 0)
         agg["solver_s"] = round(agg["solver_s"] + st.get("solver_s", 0.0), 3)
     return agg
+
+
+def tv_check(pid, tier, templates, sylt, t0, oracle_name="equiv", oracles=None, replays=None, assumptions=(), extra_cov=None,
+             expect_accept=True, sig_of=None):
+    """runs templates, maps outcomes to findings, writes evidence, returns exit code"""
+    results = run_templates(sylt, templates, tier, oracle_name, oracles, replays)
+    fnd = common.Findings(pid)
+    agg = summarize(results)
+    samples = []; confirmed = 0; witnesses = 0
+    for r in results:
+        name = r["name"]; role = r.get("role", name)
+        st = r["status"]
+        if st == "template_error" and name.startswith("pert_"):
+            pass        # the perturbation produced text outside the reference reader's subset: counted, not decided
+        elif st in ("engine_error", "template_error", "stuck"):
+            fnd.undecided("template %s: %s %s" % (name, st, (r.get("why") or "")[:300]))
+        elif st == "undecided":
+            fnd.undecided("template %s: solver returned unknown on %d queries" % (name, r.get("undecided", 0)))
+        elif st == "rejected" and expect_accept and not name.startswith("rand_"):
+            fnd.undecided("template %s: rejected by the compiler (template is meant to be well typed): %s" % (name, r.get("compiler_output", "")[:300]))
+        elif st == "load_error":
+            sig = (sig_of or default_sig)(r, None, "load_error")
+            fnd.report(sig, "emitted Lua does not load for template %s: %s" % (name, r["load_error"]), {"main.sy": r["source"], "out.lua": r.get("lua") or ""})
+        elif st == "diff":
+            for d in r["diffs"]:
+                if d.get("replayed") is True:
+                    confirmed += 1
+                    sig = (sig_of or default_sig)(r, d, "diff")
+                    info = d.get("replay", {})
+                    fnd.report(sig, "template %s holes=%s: source denotes %s, emitted Lua does %s" % (name, d["holes"], json.dumps(info.get("ref"))[:300], json.dumps(info.get("lua_trace"))[:300]),
+                               {"main.sy": info.get("source", ""), "out.lua": info.get("lua", ""), "expected.json": json.dumps(info.get("ref"), indent=1), "actual.json": json.dumps(info.get("lua_trace"), indent=1)},
+                               cmd="sylt -o out.lua main.sy && lua out.lua   # compare with expected.json")
+                    break
+                else:
+                    fnd.undecided("template %s: counterexample %s did not reproduce concretely (%s)" % (name, d["holes"], str(d.get("replay", {}).get("why"))[:200]))
+        if r.get("paths_lua", 0) > 0: witnesses += 1
+        if len(samples) < 4 and st in ("ok", "diff"):
+            samples.append({"template": name, "role": role, "status": st, "paths_ref": r.get("paths_ref"), "paths_lua": r.get("paths_lua"), "queries": r.get("queries"), "source": r.get("source", "")[:600]})
+    cov = {"programs": agg["programs"], "disagreements_checked": confirmed, "samples": samples,
+           "evaluations": agg["paths_lua"], "distinct_nontrivial": witnesses,
+           "rule": "one evaluation = one feasible symbolic path of the emitted chunk; a template is non-trivial when at least one of its paths ran to an outcome",
+           "status_counts": {k: agg[k] for k in ("ok", "diff", "rejected", "load_error", "undecided", "stuck", "engine_error", "template_error")},
+           "paths_ref": agg["paths_ref"], "paths_lua": agg["paths_lua"], "cut_paths": agg["cut_paths"],
+           "solver": {k: agg[k] for k in ("queries", "sat", "unsat", "unknown", "solver_s")},
+           "bounds": vars(tv.Bounds(tier)),
+           "functions_encoded": ["emitted chunk + sylt-compiler/src/preamble.lua (executed symbolically by luasym)", "reference: syltsem/ref.py"],
+           "known_findings_seen": sorted(fnd.seen_known)}
+    if extra_cov: cov.update(extra_cov)
+    rc = fnd.finish()
+    common.write_evidence(pid, tier, "translation_validation", cov, list(assumptions), time.time() - t0, violations=len(fnd.violations))
+    print("%s: %d templates, %d ok, %d confirmed counterexamples, %d lua paths, %d cut, %d solver queries (%.1fs solver), wall %.1fs" %
+          (pid, agg["programs"], agg["ok"], confirmed, agg["paths_lua"], agg["cut_paths"], agg["queries"], agg["solver_s"], time.time() - t0))
+    return rc
+
+
+def default_sig(r, d, kind):
+    return "%s:%s" % (kind, r.get("role", r["name"]))
+
+
+TV_ASSUMPTIONS = [
+    "program structure is a bounded family of templates; only hole values and the control paths they induce are decided by the solver",
+    "E-LUA (luasym) is a faithful Lua 5.3 for the constructs used; validated by running tests/**/*.sy (222 executable programs) in concrete mode",
+    "integers are mathematical: int holes are bounded to [0, 2^31) or tighter, so no 64-bit wrap occurs",
+    "int->float conversion of a symbolic int, math.floor of a symbolic float and float->string are uninterpreted functions (exact on constants)",
+    "string holes range over [a-z0-9 ]{0,3}",
+    "paths cut by a loop/call-depth bound are excluded from the claim and counted in cut_paths",
+]
